@@ -1,11 +1,43 @@
-//! C09: not built yet
+//! C09: broker outbound window: <=100, unique ids, resumes on ack (S4)
+use super::s4common::{self, Plan};
 use super::{Meta, Prop};
 use crate::common::{Ctx, Stats};
+#[allow(unused_imports)]
+use crate::sub::s4drive::{base_profile, Stepping, Weights};
+#[allow(unused_imports)]
+use rumqttd::Strategy;
 
-fn run(_ctx: &Ctx) -> Stats {
-    let mut s = Stats::default();
-    s.inconclusive.push("check not built yet".into());
-    s
+pub fn plan() -> Plan {
+    let mut p = base_profile("c09-window");
+    p.burst_pm = 350;
+    p.burst = (90, 450);
+    p.qos_weights = [1, 4, 3];
+    p.w.ack = 16;
+    p.w.stall = 5;
+    p.clients = (2, 4);
+    let mut hostile = p.clone();
+    hostile.name = "c09-bad-acks";
+    hostile.hostile = true;
+    hostile.w.bad = 5;
+    let mut single = p.clone();
+    single.name = "c09-single";
+    single.stepping = Stepping::Single;
+    single.ops = (60, 250);
+    let profiles = vec![p, hostile, single];
+    Plan {
+        profiles,
+        directed: vec![],
+        quick_histories: 300,
+        thorough_histories: 40000,
+    }
+}
+
+fn run(ctx: &Ctx) -> Stats {
+    s4common::run(ctx, &plan())
+}
+
+fn replay(ctx: &Ctx, doc: &serde_json::Value) -> Stats {
+    s4common::replay(ctx, &plan(), doc)
 }
 
 pub fn prop() -> Prop {
@@ -13,11 +45,11 @@ pub fn prop() -> Prop {
         id: "C09",
         meta: Meta {
             level: "exploration",
-            rule: "not built",
-            assumptions: &[],
-            floors: &[],
+            rule: "seeded histories with backlogs of 90-450 messages over 1-3 filters and QoS mixes, ack pacing none / one / bursts / all, acks injected while the connection is paused busy / caught-up / inflight-full, PUBREC/PUBCOMP pacing, unsolicited and out-of-order acks; window, packet-id uniqueness and close-on-bad-ack judged on every forward at the router/link boundary, resumption judged at quiescent points reached with acks as the only stimulus. A case counts as distinct and non-trivial when its sequence of operation kinds is new and it reached at least one named corner state.",
+            assumptions: &["router stepped on one thread through verif hooks; link actors use the real LinkTx/LinkRx", "default segment sizes: backlog stays within retention"],
+            floors: &[("quiescent-point", 20), ("window", 2000), ("inflight-full", 20), ("resumed-from-inflight-full", 5)],
         },
         run,
-        replay: None,
+        replay: Some(replay),
     }
 }
